@@ -11,3 +11,5 @@ import ThunderProofs.Properties.C09
 #print axioms TM.Properties.C09.inter_args_common
 #print axioms TM.Properties.C09.union_contains_all
 #print axioms TM.Properties.C09.union_three_services_order_dependent
+#print axioms TM.Properties.C09.required_if_any_at_depth
+#print axioms TM.Properties.C09.nonnull_only_if_all_at_depth
